@@ -3,18 +3,52 @@ from . import explore
 from .common import HarnessError, Report, Violation
 
 
-def confirm_all(spec, report):
-    """Every history violation must reproduce from its replay data (fresh world, this process) before it is reported.
+def _confirm_in_fresh_process(viol):
+    """Replay one witness in a pristine interpreter (./check --replay): exit 1 there = it reproduces."""
+    import json
+    import os
+    import subprocess
+    import sys
+    import tempfile
 
-    A violation that does not reproduce is not reported: something outside the explored state influenced it (typically
+    here = os.path.dirname(os.path.dirname(os.path.abspath(__file__)))
+    fd, path = tempfile.mkstemp(prefix="verif-confirm-", suffix=".json", dir=os.environ.get("VERIF_SCRATCH", "/dev/shm"))
+    try:
+        with os.fdopen(fd, "w", encoding="utf-8") as fh:
+            json.dump(viol.to_dict(), fh)
+        proc = subprocess.run([sys.executable, "-m", "mc.runner", "--replay", path], cwd=here, capture_output=True, text=True, timeout=600)
+        return proc.returncode == 1
+    except (OSError, subprocess.SubprocessError):
+        return False
+    finally:
+        try:
+            os.unlink(path)
+        except OSError:
+            pass
+
+
+def confirm_all(spec, report):
+    """Every history violation must reproduce from its replay data before it is reported: first in this process on a
+    fresh world, then - for the witness and up to six alternates of the same signature - in a pristine interpreter.
+
+    A violation that reproduces nowhere is not reported: something outside the explored state influenced it (typically
     module-level state of the library shared between executions in one worker process). If others do reproduce the run
     reports those and lists the dropped signatures in coverage.unconfirmed_dropped; if none does, that is a harness error.
     """
     dropped = []
     for sig, viol in list(report.violations.items()):
-        if viol.replay and viol.replay.get("kind") == "history" and not explore.confirm(spec, viol):
-            dropped.append(viol.signature)
-            del report.violations[sig]
+        if not (viol.replay and viol.replay.get("kind") == "history"):
+            continue
+        if explore.confirm(spec, viol):
+            continue
+        witnesses = [viol] + list(getattr(viol, "alternates", []))
+        good = next((w for w in witnesses if w.replay and w.replay.get("kind") == "history" and _confirm_in_fresh_process(w)), None)
+        if good is not None:
+            report.violations[sig] = good
+            report.coverage.setdefault("confirmed_in_fresh_process", []).append(viol.signature)
+            continue
+        dropped.append(viol.signature)
+        del report.violations[sig]
     if dropped:
         report.coverage["unconfirmed_dropped"] = dropped
         if not report.violations:
